@@ -4,7 +4,8 @@ import HqModel.Auth.Scenario
 Driver `hqm-auth`: one case = one row of the C20 table.
   `op base <keyA> <keyB> <myA> <peerA> <myB> <peerB> <protoA> <protoB>`
       the earlier, undisturbed session between the two configurations (keys: `none`, `k1`, `k2`)
-  `op adv <action…>`   the main session under the adversary action:
+  `op adv <action…> [+ <action…>]*`   the main session under the adversary action(s) (several actions,
+      on pairwise different messages, only in the thorough-tier pairs table); an action is:
       `none` | `drop i` | `reflect i` | `earlier i` | `parallel i` |
       `mod i proto|role <name>|chalflip|chaltrunc|chalext|modeswap`  (i ∈ {1,2}) |
       `mod i ctflip|nonceflip|cttrunc|noncetrunc|noauth|error`  (i ∈ {3,4}) | `double-proto`
@@ -67,6 +68,23 @@ def parseAdv : List String → Option Adv
     | none => none
   | _ => none
 
+/-- `a1 + a2 + …` (1 to 4 single-message actions on pairwise different messages) -/
+def splitPlus (toks : List String) : List (List String) :=
+  toks.foldr (fun t acc =>
+    match acc with
+    | cur :: rest => if t = "+" then [] :: cur :: rest else (t :: cur) :: rest
+    | [] => [[t]]) [[]]
+
+def distinctIdx : List Adv → Bool
+  | [] => true
+  | a :: rest => a.idx ≠ 0 && rest.all (fun b => b.idx ≠ a.idx) && distinctIdx rest
+
+def parseAdvs (toks : List String) : Option (List Adv) :=
+  match (splitPlus toks).mapM parseAdv with
+  | some [a] => some [a]
+  | some l => if 2 ≤ l.length ∧ l.length ≤ 4 ∧ distinctIdx l then some l else none
+  | none => none
+
 def parseBase : List String → Option (Config × Config)
   | [kA, kB, myA, peerA, myB, peerB, pA, pB] =>
     match parseKey kA, parseKey kB, parseRole myA, parseRole peerA, parseRole myB, parseRole peerB,
@@ -96,8 +114,8 @@ def step (s : St) : List String → St × List String
     | some (cA, cB) => (some (cA, cB), showOutcome (earlierSession cA cB))
     | none => (s, ["out !bad-op"])
   | "adv" :: rest =>
-    match s, parseAdv rest with
-    | some (cA, cB), some adv => (s, showOutcome (runRow cA cB adv))
+    match s, parseAdvs rest with
+    | some (cA, cB), some advs => (s, showOutcome (runRow cA cB advs))
     | _, _ => (s, ["out !bad-op"])
   | _ => (s, ["out !bad-op"])
 
